@@ -62,3 +62,38 @@ Proof.
   exists path. split; [reflexivity|]. split; [exact (shortest_is_chain _ _ _ _ _ _ Hs)|].
   intro Hab. exact (shortest_nonempty _ _ _ _ _ _ Hs Hab).
 Qed.
+
+
+(* closed form of the magnitude factor accumulated along a chain: the coefficient is 1 multiplied / divided by the rules'
+   numeric coefficients in chain order, the symbols are the rules' symbols in chain order with exponent +1 / -1 *)
+Definition chain_q (path : list rule) : Q :=
+  fold_left (fun q r => if r_div r then (q / r_kq r)%Q else (q * r_kq r)%Q) path 1%Q.
+Definition chain_syms (path : list rule) : list (Z * Z) :=
+  flat_map (fun r => map (fun s => (s, if r_div r then -1 else 1)%Z) (r_ksym r)) path.
+
+Lemma apply_path_value path : forall st,
+  a_q (fold_left (fun st r => apply_rule r st) path st) =
+    fold_left (fun q r => if r_div r then (q / r_kq r)%Q else (q * r_kq r)%Q) path (a_q st) /\
+  a_syms (fold_left (fun st r => apply_rule r st) path st) = a_syms st ++ chain_syms path.
+Proof.
+  induction path as [|r path IH]; intros st; cbn [fold_left chain_syms flat_map].
+  - split; [reflexivity|]. rewrite app_nil_r. reflexivity.
+  - destruct (IH (apply_rule r st)) as [A B]. rewrite A, B. unfold apply_rule.
+    destruct (r_div r); cbn [a_q a_syms]; (split; [reflexivity|]); rewrite <- app_assoc; reflexivity.
+Qed.
+
+Theorem chain_value rules a b st c :
+  convert_with_rules rules a b = Ok (st, c) ->
+  exists path, shortest (S (length rules)) rules [] a b = Some path /\
+    a_q st = chain_q path /\ a_syms st = chain_syms path /\
+    ueq (a_unit st) (umul a (chain_unit path)) /\ conv (a_unit st) b = Some c.
+Proof.
+  unfold convert_with_rules. intro H.
+  destruct (shortest (S (length rules)) rules [] a b) as [path|] eqn:Hs; [|discriminate].
+  exists path. split; [reflexivity|].
+  set (s0 := {| a_q := 1%Q; a_syms := []; a_unit := a |}) in *.
+  destruct (conv (a_unit (fold_left (fun st r => apply_rule r st) path s0)) b) as [c0|] eqn:Hc; [|discriminate].
+  injection H as <- <-.
+  destruct (apply_path_value path s0) as [A B]. destruct (apply_path_spec path s0) as [U _].
+  repeat split; [exact A|exact B|exact U|exact Hc].
+Qed.
